@@ -17,13 +17,15 @@ from .. import lib, prog
 PROP = "C15"
 PROP_FILE = "Props/C15.v"
 PRELUDE = ("From Coq Require Import List.\nFrom AV Require Import Check.CheckModel.\nImport ListNotations.\n"
-           "Definition c15_run (P : program) := (map (fun k => (invoke [] P k, check [] P k)) [KAscent; KAscentPar; KAscentRun; KAscentRunPar], offenders [] P).\n")
+           "Definition c15_late : counters := map (fun i => (Base i, 3)) (seq 0 60).\n"
+           "Definition c15_run (P : program) := (map (fun k => (invoke [] P k, check [] P k, check c15_late P k)) [KAscent; KAscentPar; KAscentRun; KAscentRunPar], offenders [] P).\n")
 CORPUS = os.path.join(lib.VERIF, "corpus", "C15.jsonl")
 
 MSG_CLASSES = [
     (r"^relation `(\w+)` is not defined$", "undeclared"),
     (r"^wrong arity for relation `(\w+)` \(expected (\d+), found (\d+)\)$", "arity"),
     (r"^`(\w+)` shadows another variable with the same name$", "shadow"),
+    (r"^aggregated variable `(\w+)` is not an argument of relation `(\w+)`$", "agg_unbound"),
     (r"^use of aggregated relation `(\w+)` cannot be stratified$", "not_stratified"),
     (r"^recursively defined Ascent macro$", "recursive_macro"),
     (r"^undefined macro$", "undefined_macro"),
@@ -42,7 +44,7 @@ MSG_CLASSES = [
 MODEL_CLASS = {
     "EUnexpectedAttr": "unexpected_attr", "EEmptyLattice": "empty_lattice", "EIncludeInSource": "include_in_source",
     "EUndefinedMacro": "undefined_macro", "EMacroArgs": "macro_args", "EMacroSyntax": "syntax",
-    "ERecursiveMacro": "recursive_macro", "EUndeclared": "undeclared", "EArity": "arity", "EShadow": "shadow",
+    "ERecursiveMacro": "recursive_macro", "EUndeclared": "undeclared", "EArity": "arity", "EShadow": "shadow", "EAggVar": "agg_unbound",
     "EUnknownAttr": "unknown_attr", "EInterRuleSerial": "irp_serial", "EMultipleDsProg": "multiple_ds",
     "EMultipleDs": "multiple_ds", "EDsOnLattice": "ds_on_lattice", "ENotStratified": "not_stratified",
 }
@@ -55,6 +57,8 @@ def classify_message(msg):
             g = m.groups()
             if cls == "arity":
                 return cls, [g[0], int(g[1]), int(g[2])]
+            if cls == "agg_unbound":
+                return cls, [g[0], g[1]]
             if cls in ("undeclared", "shadow", "not_stratified"):
                 return cls, g[0]
             return cls, None
@@ -102,6 +106,8 @@ def model_verdict(v, N):
         det = [relname[e[1]], e[2], e[3]]
     elif name == "EShadow":
         det = ident_name(e[1], varname)
+    elif name == "EAggVar":
+        det = [ident_name(e[1], varname), relname[e[2]]]
     elif name == "ENotStratified":
         det = relname[e[1]]
     return ["err", cls, det]
@@ -158,9 +164,16 @@ def verdict_tag(v):
     return v[0]
 
 
-def known_class(case, impl):
+def known_class(case, impl, kind=None):
+    if impl[0] == "err" and impl[1] == "shadow":
+        # the other face of the capture: the generated identifier collides with a later binder of the user's variable
+        caps = [e.get("capture") for e in case["expect"] if e.get("capture")]
+        if caps and all(e["cls"] == "ok" for e in case["expect"]) and impl[2] == caps[0]["clash"]:
+            return "fresh_ident_capture_panics"
     if impl[0] == "panic":
         exps = case["expect"]
+        if kind:      # a class that is no violation under this macro kind (inter_rule_parallelism in a parallel macro) does not count
+            exps = [e for e in exps if e["cls"] == "ok" or G.expected_for_kind(e, kind) != "ok"] or exps
         if any(e.get("capture") for e in exps) and all(e["cls"] == "ok" for e in exps):
             return "fresh_ident_capture_panics"
         if any(e["cls"] == "agg_unbound" for e in exps) and all(e["cls"] in ("agg_unbound",) for e in exps):
@@ -170,21 +183,33 @@ def known_class(case, impl):
 
 # ------------------------------------------------------------------ cases
 
+STATS = {}
+
+
 def gen_cases(tier, seed):
     rng = lib.rng_for(seed, PROP)
     nbase = 125 if tier == "quick" else 1600
     names = sorted(G.MUTATIONS)
     weights = [G.MUTATIONS[n][1] for n in names]
     cases = []
+    skipped = 0
     for b in range(nbase):
         base, info = G.base_program(rng, "b%d" % b)
+        try:          # gen/gen_dl.py is shared and grows: a construct this tie cannot render yet is skipped, and counted
+            A.rust_text(base)
+            A.coq_program(base)
+        except (ValueError, KeyError, IndexError, TypeError) as e:
+            skipped += 1
+            if skipped > nbase // 10:
+                raise lib.Infra("gen/c15_ast.py cannot render the programs of gen/gen_dl.py any more: %r" % (e,))
+            continue
         cases.append(dict(id="b%d" % b, program=base, expect=[dict(cls="ok", detail=None)], mutation="none", info=info))
         nm = rng.choice([1, 2, 2, 3])
         for m in range(nm):
             name = rng.choices(names, weights)[0]
             try:
                 mp, exp = G.mutate(rng, base, name)
-            except G.NoSite:
+            except (G.NoSite, IndexError):
                 continue
             exps = [exp]
             mut = name
@@ -211,6 +236,7 @@ def gen_cases(tier, seed):
             for ki, kind in enumerate(A.KINDS):
                 mp, exp = G.mutate(rng, base, "capture", "%dk%d" % (b, ki))
                 cases.append(dict(id="b%dc%d" % (b, ki), program=mp, expect=[exp], mutation="capture", info=info, only_kind=kind))
+    STATS["skipped_bases"] = skipped
     return cases
 
 
@@ -239,8 +265,8 @@ def run_model(cases):
         per_kind, offs = v
         relname = {i: n for n, i in N.rel.d.items()}
         res = {}
-        for k, (inv, chk) in zip(A.KINDS, per_kind):
-            res[k] = dict(invoke=model_verdict(inv, N), check=model_verdict(chk, N))
+        for k, (inv, chk, late) in zip(A.KINDS, per_kind):
+            res[k] = dict(invoke=model_verdict(inv, N), check=model_verdict(chk, N), late=model_verdict(late, N))
         out.append(dict(kinds=res, offenders=sorted(set(relname[r] for (_, r) in offs))))
     return out
 
@@ -302,7 +328,16 @@ def rustc_sample(tier, seed, cases):
 
 
 def run_rustc(tag, jobs):
-    res = prog.build_and_run(tag, [j for j, _, _, _ in jobs], nbins=min(lib.NCPU, max(1, len(jobs) // 3)))
+    # jobs expected to compile share one crate; jobs expected to fail go in small crates, one binary each, so that the
+    # harness's blame-and-rebuild loop converges in a couple of cargo runs
+    good = [j for j, _, _, want in jobs if want == {"ok"}]
+    bad = [j for j, _, _, want in jobs if want != {"ok"}]
+    res = {}
+    if good:
+        res.update(prog.build_and_run(tag + "_ok", good, nbins=min(lib.NCPU, max(1, len(good) // 2))))
+    for i in range(0, len(bad), 16):
+        chunk = bad[i:i + 16]
+        res.update(prog.build_and_run("%s_x%d" % (tag, i // 16), chunk, nbins=len(chunk)))
     out = []
     for j, c, k, want in jobs:
         r = res[j["id"]][0]
@@ -328,9 +363,15 @@ def load_corpus():
 
 
 def tie(tier, seed, replay):
+    replay_rustc = None
     if replay:
         rc = json.load(open(replay))["case"]
-        cases = [rc["case"] if "case" in rc else rc]
+        c = dict(rc["case"] if "case" in rc else rc)
+        c["only_kind"] = c.get("only_kind") or c.get("kind")
+        c.setdefault("id", "replay")
+        cases = [c]
+        if c.get("level") == "rustc":
+            replay_rustc = [(rustc_job("replay", c["program"], c["only_kind"]), c, c["only_kind"], spec_for(c, c["only_kind"], "rustc"))]
     else:
         cases = load_corpus() + gen_cases(tier, seed)
     recs = front_records(cases)
@@ -344,6 +385,12 @@ def tie(tier, seed, replay):
         kinds = [c["only_kind"]] if c.get("only_kind") else A.KINDS
         dist[c["mutation"]] = dist.get(c["mutation"], 0) + len(kinds)
         for k in kinds:
+            if c["mutation"] != "capture" and m["kinds"][k]["check"] != m["kinds"][k]["late"]:
+                # only programs using identifiers spelled like generated ones may depend on the process-wide counter
+                mism.append(dict(case=dict(case=dict(id=c["id"], kind=k, level="check", mutation=c["mutation"], expect=c["expect"], program=c["program"],
+                                                     text=A.rust_text(c["program"]))), impl=None, model=[m["kinds"][k]["check"], m["kinds"][k]["late"]],
+                                 spec=None, kind="model_differs", known=None,
+                                 what="the model's verdict depends on the state of the fresh-identifier counter for a program without clashing identifiers (%s)" % c["mutation"]))
             levels = [("i", "invoke", c["program"])]
             if oracle_invoke_level(c["program"]) == "deferred" and not c.get("no_splice"):
                 levels.append(("s", "check", A.spliced(c["program"])))
@@ -354,14 +401,14 @@ def tie(tier, seed, replay):
                 mv = m["kinds"][k][level]
                 want = spec_for(c, k, level)
                 small = dict(id=c["id"], kind=k, level=level, mutation=c["mutation"], expect=c["expect"], program=c["program"],
-                             text=A.rust_text(pr), only_kind=c.get("only_kind"))
+                             text=A.rust_text(pr), only_kind=c.get("only_kind"), no_splice=c.get("no_splice"))
                 if verdict_tag(iv) not in want:
                     mism.append(dict(case=dict(case=small), impl=iv, model=mv, spec=sorted(want), kind="impl_violates_spec",
-                                     known=known_class(c, iv),
+                                     known=known_class(c, iv, k),
                                      what="%s! on a %s program (%s): the property demands %s, ascent_impl returned %s" % (
                                          k, "well-formed" if want == {"ok"} else "mutated", c["mutation"], sorted(want), iv)))
                 elif len(c["expect"]) == 1 and iv[0] == "err" and c["expect"][0].get("detail") is not None \
-                        and iv[1] == c["expect"][0]["cls"] and iv[1] in ("undeclared", "arity", "shadow") and iv[2] != c["expect"][0]["detail"]:
+                        and iv[1] == c["expect"][0]["cls"] and iv[1] in ("undeclared", "arity", "shadow", "agg_unbound") and iv[2] != c["expect"][0]["detail"]:
                     mism.append(dict(case=dict(case=small), impl=iv, model=mv, spec=c["expect"], kind="impl_violates_spec", known=None,
                                      what="%s!: error of the right class but about %s instead of the injected %s" % (k, iv[2], c["expect"][0]["detail"])))
                 if not same_verdict(iv, mv, m["offenders"]):
@@ -373,7 +420,7 @@ def tie(tier, seed, replay):
                 if len(samples) < 40 and (len(samples) < 3 or c["mutation"] not in [s["mutation"] for s in samples]):
                     samples.append(dict(mutation=c["mutation"], kind=k, text=A.rust_text(pr)[:600], impl=iv, model=mv, spec=sorted(want)))
     # rustc level
-    rjobs = rustc_sample(tier, seed, [c for c in cases if "info" in c]) if not replay else []
+    rjobs = rustc_sample(tier, seed, [c for c in cases if "info" in c]) if not replay else (replay_rustc or [])
     rres = run_rustc("c15_%s" % tier, rjobs) if rjobs else []
     rdist = {}
     model_by_id = {c["id"]: m for c, m in zip(cases, model)}
@@ -385,7 +432,10 @@ def tie(tier, seed, replay):
                      text=r["job"]["pre"], only_kind=c.get("only_kind"))
         got = ["compiled"] if r["compiled"] else ["rejected"] + [[e["line"], e["cls"], e["detail"]] for e in r["errors"][:3]]
         panicked = any(e["cls"] == "panic" for e in r["errors"])
-        known = known_class(c, ["panic"]) if panicked else None
+        known = known_class(c, ["panic"], r["kind"]) if panicked else None
+        for e in r["errors"]:
+            if known is None and e["cls"] == "shadow":
+                known = known_class(c, ["err", "shadow", e["detail"]], r["kind"])
         mv = model_by_id[c["id"]]["kinds"][r["kind"]]["check"]
         classes = set("err:" + e["cls"] for e in r["errors"])
         # model (macro level) vs rustc
@@ -424,12 +474,14 @@ def tie(tier, seed, replay):
              "rustc: generated crates compiled against /repo, error messages and line numbers of the diagnostics",
         samples=samples,
         distribution=dict(front_by_mutation=dist, front_cases=nfront, rustc_jobs=rdist,
-                          programs=len(cases), decorations=_deco_hist(cases)),
+                          programs=len(cases), decorations=_deco_hist(cases), skipped_bases=STATS.get("skipped_bases", 0)),
         mismatches=mism,
         trusted_base=["gen/c15_ast.py renderers (Rust text and Coq term from one AST), gen/c15_gen.py injections and their classes (python oracle)",
                       "the verif_hooks driver of ascent_macro (calls ascent_impl under catch_unwind, proc-macro2 fallback spans)",
                       "rustc's diagnostics for the sampled crates (message text and line numbers)"],
-        assumptions=["expressions are opaque to the model: only 'is a plain identifier' and the free variables of an argument matter",
+        assumptions=["the model is evaluated with the fresh-identifier counter of a fresh process (c0 = []); for every case other than the capture cases the verdict "
+                     "is also evaluated with an advanced counter and must coincide; the capture cases use identifiers unique to the case and the macro kind",
+                     "expressions are opaque to the model: only 'is a plain identifier' and the free variables of an argument matter",
                      "macro bodies mention only their parameters (macro-local variables: C08); no disjunctions (C07)",
                      "generated identifiers of the reserved name space (__1, __arg_pattern_, __x_) are not used by programs",
                      "unknown attributes on a relation are rejected by rustc, not by the macro (checked on the sampled crates only)"],
